@@ -620,6 +620,108 @@ theorem inv_coAwaitSp (s : State) (c : Nat) (cs : List Nat) (rev : Bool) (h : In
       grind [wakeable, upd_apply]
     · have := h.cur_base; grind
 
+/-- `co_await` of a suspend point that holds the awaiting coroutine's own handle -/
+theorem inv_coAwaitSelf (s : State) (c : Nat) (pre post : List Nat) (h : Inv s) (hc : s.cur = some c) :
+    Inv (coAwaitSelf s c pre post) := by
+  obtain ⟨hr, hb, ha⟩ := cur_facts h hc
+  unfold coAwaitSelf
+  have hst1 := fun i => (collect_spec pre s.st i).1
+  have hcnt1 := fun i => (collect_spec pre s.st i).2
+  have hst2 := fun i => (collect_spec post (collect s.st pre).1 i).1
+  have hcnt2 := fun i => (collect_spec post (collect s.st pre).1 i).2
+  generalize (collect (collect s.st pre).1 post).1 = st2 at hst2
+  generalize (collect (collect s.st pre).1 post).2 = h2 at hcnt2
+  generalize (collect s.st pre).1 = st1 at hst1 hst2 hcnt2
+  generalize (collect s.st pre).2 = h1 at hcnt1
+  have hc1 : ¬ Hit s.st pre c := by simp [Hit, hr, wakeable]
+  have hst1c : st1 c = St.running := by have := hst1 c; simp [hc1] at this; rw [this, hr]
+  have hc2 : ¬ Hit st1 post c := by simp [Hit, hst1c, wakeable]
+  split
+  next hnone =>
+    have hnil : h2 = [] := by simpa using hnone
+    subst hnil
+    have hno : ∀ i, ¬ Hit st1 post i := by
+      intro i hh
+      have := hcnt2 i
+      simp [hh] at this
+    refine ⟨⟨?_, ?_, ?_, ?_, ?_, ?_, ?_, ?_, ?_, ?_, ?_⟩, ?_, ?_⟩ <;> dsimp only
+    · rw [h.fifo]; simp
+    · intro i
+      have := h.handle_once i; have := hst1 i; have := hcnt1 i; have := hst2 i; have := hno i
+      simp only [List.count_append] at *
+      unfold Hit at *
+      grind [wakeable]
+    · intro i
+      have := h.stacked_once i; have := hst1 i; have := hst2 i; have := hno i
+      unfold Hit at *
+      grind [wakeable]
+    · intro d p hw
+      have := h.waiter_ok d p hw; have := hst1 p; have := hst2 p; have := hno p
+      unfold Hit at *
+      grind [wakeable]
+    · intro i
+      have := h.once i; have := hcnt1 i
+      simp only [List.count_append, List.count_singleton, List.count_cons, List.count_nil] at *
+      grind
+    · exact h.active_iff
+    · exact h.blocks_prev
+    · exact h.loop_prev
+    · exact h.callmain_block
+    · exact h.calls_base
+    · intro _ hh; exact absurd hh hb
+    · intro i
+      have := h.running_iff i; have := hst1 i; have := hst2 i; have := hno i
+      unfold Hit at *
+      grind [wakeable]
+    · exact h.cur_base
+  next out ho =>
+    have hsplit := getLast_split h2 out ho
+    generalize h2.dropLast = rest at hsplit
+    subst hsplit
+    have hout := hcnt2 out
+    simp only [List.count_append, List.count_singleton, beq_self_eq_true, if_true] at hout
+    have hHo : Hit st1 post out := by
+      by_cases hh : Hit st1 post out
+      · exact hh
+      · simp [hh] at hout
+    have hoc : out ≠ c := by intro e; subst e; exact hc2 hHo
+    refine ⟨⟨?_, ?_, ?_, ?_, ?_, ?_, ?_, ?_, ?_, ?_, ?_⟩, ?_, ?_⟩ <;> dsimp only
+    · rw [h.fifo]; simp
+    · intro i
+      have := h.handle_once i; have := hst1 i; have := hcnt1 i; have := hst2 i; have := hcnt2 i
+      simp only [List.count_append, List.count_singleton, List.count_cons, List.count_nil] at *
+      unfold Hit at *
+      grind [wakeable, upd_apply]
+    · intro i
+      have := h.stacked_once i; have := hst1 i; have := hst2 i
+      have := hst1 out; have := hst2 out
+      clear ho hout hcnt2 hcnt1
+      unfold Hit at *
+      simp only [upd_apply]
+      grind [wakeable]
+    · intro d p hw
+      have := h.waiter_ok d p hw; have := hst1 p; have := hst2 p
+      unfold Hit at *
+      grind [wakeable, upd_apply]
+    · intro i
+      have := h.once i; have := hcnt1 i; have := hcnt2 i
+      simp only [List.count_append, List.count_singleton, List.count_cons, List.count_nil] at *
+      grind
+    · exact h.active_iff
+    · exact h.blocks_prev
+    · exact h.loop_prev
+    · exact h.callmain_block
+    · exact h.calls_base
+    · intro _ hh; exact absurd hh hb
+    · intro i
+      have := h.running_iff i; have := hst1 i; have := hst2 i
+      have := hst1 out; have := hst2 out
+      clear ho hout hcnt2 hcnt1
+      unfold Hit at *
+      simp only [upd_apply]
+      grind [wakeable]
+    · have := h.cur_base; grind
+
 /-- facts about ordinary code being in control -/
 theorem main_facts {s : State} (h : Inv s) (hc : s.cur = none) :
     s.base = none ∧ s.calls = [] ∧ (∀ i, s.st i ≠ St.running) ∧ (s.active = true ↔ s.blocks ≠ []) := by
@@ -878,6 +980,7 @@ theorem inv_step (s : State) (a : Act) (h : Inv s) : Inv (step s a) := by
     | start d fut => exact inv_coStart s c d fut h hc
     | gnext d => exact inv_coGnext s c d h hc
     | gyield => exact inv_coGyield s c h hc
+    | awaitSelf pre post => exact inv_coAwaitSelf s c pre post h hc
     | call d => exact inv_coCall s c d h hc
     | join d => exact inv_coJoin s c d h hc
     | fin => exact inv_coFin s c h hc
@@ -904,6 +1007,7 @@ theorem inv_step (s : State) (a : Act) (h : Inv s) : Inv (step s a) := by
     | park => exact h
     | parkNext => exact h
     | pause => exact h
+    | awaitSelf pre post => exact h
     | call d => exact h
     | join d => exact h
     | fin => exact h
@@ -976,6 +1080,9 @@ theorem grows_step (s : State) (a : Act) : Grows s (step s a) := by
       split
       · exact grows_settle_of s _ rfl rfl
       · exact grows_refl s
+    | awaitSelf pre post =>
+      simp only [coStep, coAwaitSelf]
+      split <;> simp [Grows, List.append_assoc]
     | call d => simp only [coStep, coCall]; split <;> simp [Grows]
     | join d =>
       simp only [coStep, coJoin]
@@ -1040,6 +1147,7 @@ theorem grows_step (s : State) (a : Act) : Grows s (step s a) := by
     | park => exact grows_refl s
     | parkNext => exact grows_refl s
     | pause => exact grows_refl s
+    | awaitSelf pre post => exact grows_refl s
     | call d => exact grows_refl s
     | join d => exact grows_refl s
     | fin => exact grows_refl s
@@ -1118,5 +1226,53 @@ theorem settle_from_upd (m s : State) (c : Nat) (v : St) (hm : Mid m) (hst : m.s
   have := settle_cur m hm x hx
   rw [hst] at this
   grind [upd_apply]
+
+/-! ## Lists of any length: helper lemmas for the width-independent statements of `Props/C05.lean` -/
+
+/-- all of `cs` are wakeable and pairwise different: every one of them contributes its handle, in order -/
+theorem collect_all (cs : List Nat) : ∀ st : Nat → St, cs.Nodup → (∀ i ∈ cs, wakeable (st i) = true) →
+    (collect st cs).2 = cs := by
+  induction cs with
+  | nil => intro st _ _; rfl
+  | cons c cs ih =>
+    intro st hn hw
+    have hc : wakeable (st c) = true := hw c (List.mem_cons_self ..)
+    have hn' := List.nodup_cons.1 hn
+    simp only [collect, hc, if_true]
+    congr 1
+    apply ih _ hn'.2
+    intro i hi
+    have : i ≠ c := fun e => hn'.1 (e ▸ hi)
+    simp [upd, this, hw i (List.mem_cons_of_mem _ hi)]
+
+
+/-- a coroutine running directly under the flush loop finishes, and so does everybody who waits in the ready queue `q` (of any
+length): they are taken from the queue one after the other, in order, and the thread leaves coroutine mode -/
+theorem drain_fins (q : List Nat) : ∀ (s : State) (c : Nat), s.cur = some c → s.calls = [] →
+    s.base = some (Base.loop [] false) → s.ready = q → (∀ i, s.waiter i = none) →
+    (run s (List.replicate (q.length + 1) Act.fin)).cur = none
+    ∧ (run s (List.replicate (q.length + 1) Act.fin)).ready = []
+    ∧ (run s (List.replicate (q.length + 1) Act.fin)).deq = s.deq ++ q
+    ∧ (run s (List.replicate (q.length + 1) Act.fin)).runs = s.runs ++ q
+    ∧ (run s (List.replicate (q.length + 1) Act.fin)).active = false
+    ∧ (run s (List.replicate (q.length + 1) Act.fin)).blocks = s.blocks := by
+  induction q with
+  | nil =>
+    intro s c hc hcl hb hr hw
+    simp [run, step, hc, coStep, coFin, hw c, settle, hcl, hb, hr]
+  | cons x q ih =>
+    intro s c hc hcl hb hr hw
+    have hrun : run s (List.replicate ((x :: q).length + 1) Act.fin)
+        = run (step s Act.fin) (List.replicate (q.length + 1) Act.fin) := by
+      simp [run, List.replicate_succ]
+    have hs : step s Act.fin =
+        { s with st := upd (upd s.st c St.done) x St.running, ready := q, deq := s.deq ++ [x], cur := some x,
+                 runs := s.runs ++ [x] } := by
+      simp [step, hc, coStep, coFin, hw c, settle, hcl, hb, hr]
+    rw [hrun, hs]
+    have := ih { s with st := upd (upd s.st c St.done) x St.running, ready := q, deq := s.deq ++ [x], cur := some x,
+                        runs := s.runs ++ [x] } x rfl hcl hb rfl hw
+    simpa using this
+
 
 end Cocls.Exec
